@@ -42,3 +42,18 @@ func init() {
 			{"wal.go", "		if closed == 1 {\n			w.writeMu.Unlock()\n			return\n		}", "		if closed == 1 {\n			return\n		}"},
 			{"wal.go", "		w.awaitRotate = nil\n		w.writeMu.Unlock()\n", "		w.awaitRotate = nil\n"}}})
 }
+
+func init() {
+	addMutant(mutant{Name: "revert/F10-constant-codec", Fire: []string{"VF-05"},
+		Edits: []edit{{"wal.go", "		Codec:      w.codec.ID(),", "		Codec:      CodecBinaryV1,"}}})
+	addMutant(mutant{Name: "revert/F12-getlog-no-first-bound", Fire: []string{"VF-17"},
+		Edits: []edit{{"state.go", "	if first := s.firstIndex(); first == 0 || index < first {\n		return nil, ErrNotFound\n	}\n", ""}}})
+	addMutant(mutant{Name: "state/getlog-first-bound-inverted", Fire: []string{"VF-17"},
+		Edits: []edit{{"state.go", "first == 0 || index < first {", "first == 0 || index > first {"}}})
+	addMutant(mutant{Name: "revert/F13-verifier-delete-no-reset", Fire: []string{"VF-18"},
+		Edits: []edit{{"verifier/store.go", "		atomic.StoreUint64(&s.checksum, 0)\n		atomic.StoreUint64(&s.sumStartIdx, 0)\n	}\n	return err", "	}\n	return err"}}})
+	addMutant(mutant{Name: "revert/F08-head-truncation-wrap", Fire: []string{"VF-10"},
+		Edits: []edit{{"wal.go", "			if maxIdx >= seg.MinIndex {\n", "			{\n"}}})
+	addMutant(mutant{Name: "revert/F09-copylogs-empty-source", Fire: []string{"VF-10"},
+		Edits: []edit{{"migrate/migrate.go", "	if last == 0 {\n		// Empty source log: nothing to copy (index 0 is not a log entry).\n		update(\"DONE: source log is empty, nothing to copy\")\n		return nil\n	}\n", ""}}})
+}
